@@ -94,10 +94,13 @@ const (
 	opPBFields
 	opPBSet
 	opMarshalToMember
+	opDescToPathNode
+	opMarshalUnloaded
+	opReadAnyCopy
 	nC12Ops
 )
 
-var c12OpNames = [nC12Ops]string{"j2t.Do", "j2t.DoInto", "t2j.Do", "t2j.DoInto", "GetByPath", "Children", "Load+Marshal", "MarshalTo", "desc-lookups", "Interface", "t2j.Do(ConvertException)", "j2t.Do(http-mapping, empty body)", "p2j.Do", "j2p.Do", "j2t.Do(http-mapping, body with missing root fields)", "pb.Load+Marshal", "pb.Interface", "pb.Fields+GetMany", "pb.SetByPath (private copy)", "MarshalTo of a non-struct member value"}
+var c12OpNames = [nC12Ops]string{"j2t.Do", "j2t.DoInto", "t2j.Do", "t2j.DoInto", "GetByPath", "Children", "Load+Marshal", "MarshalTo", "desc-lookups", "Interface", "t2j.Do(ConvertException)", "j2t.Do(http-mapping, empty body)", "p2j.Do", "j2p.Do", "j2t.Do(http-mapping, body with missing root fields)", "pb.Load+Marshal", "pb.Interface", "pb.Fields+GetMany", "pb.SetByPath (private copy)", "MarshalTo of a non-struct member value", "DescriptorToPathNode", "Marshal of an unloaded PathNode", "ReadAnyWithDesc(copyString)"}
 
 type c12Result struct {
 	Out []byte
@@ -197,6 +200,45 @@ func (s *c12Shared) exec(op *c12Op) (res c12Result) {
 		out, err := v.MarshalTo(s.memberDesc2[k], s.gopts)
 		res.Out = out
 		seterr(err)
+	case opDescToPathNode:
+		// builds a tree of empty values from the shared descriptor, under tape-chosen write options
+		var pn generic.PathNode
+		o := &generic.Options{DescriptorToPathNodeWriteDefualt: op.Rec, DescriptorToPathNodeWriteOptional: op.Cap%2 == 0,
+			DescriptorToPathNodeMaxDepth: 3, DescriptorToPathNodeArraySize: op.Cap % 3, DescriptorToPathNodeMapSize: op.Cap % 2}
+		err := generic.DescriptorToPathNode(s.desc, &pn, o)
+		seterr(err)
+		if err == nil {
+			out, err := pn.Marshal(s.gopts)
+			res.Out = out
+			seterr(err)
+		}
+	case opMarshalUnloaded:
+		// a node that was never loaded marshals as the value it carries - into memory of its own
+		in := input(s.msgs[op.Doc])
+		pn := generic.PathNode{Node: generic.NewNode(thrift.Type(s.rootT.Kind), in)}
+		out, err := pn.Marshal(s.gopts)
+		res.Out = out
+		seterr(err)
+		if err == nil && overlaps(out, in) {
+			res.Err = "RESULT-ALIASES-INPUT " + res.Err
+		}
+	case opReadAnyCopy:
+		// with copyString set, nothing in the result refers to the input: scribbling over a private copy of the
+		// input afterwards must not show
+		in := append([]byte{}, input(s.msgs[op.Doc])...)
+		p := thrift.BinaryProtocol{Buf: in}
+		x, err := p.ReadAnyWithDesc(s.desc, false, true, false, op.Rec)
+		seterr(err)
+		if err == nil {
+			before := canonIface(x)
+			for i := range in {
+				in[i] = 0xEE
+			}
+			res.Out = []byte(canonIface(x))
+			if string(res.Out) != before {
+				res.Err = "RESULT-ALIASES-INPUT " + res.Err
+			}
+		}
 	case opDescLookup:
 		if s.desc.Type() == thrift.STRUCT {
 			st := s.desc.Struct()
@@ -331,6 +373,15 @@ func (s *c12Shared) exec(op *c12Op) (res c12Result) {
 		}
 	}
 	return
+}
+
+// overlaps tells if two slices share memory (within their capacities).
+func overlaps(a, b []byte) bool {
+	if cap(a) == 0 || cap(b) == 0 {
+		return false
+	}
+	a0, b0 := uintptr(unsafe.Pointer(&a[:1][0])), uintptr(unsafe.Pointer(&b[:1][0]))
+	return a0 < b0+uintptr(cap(b)) && b0 < a0+uintptr(cap(a))
 }
 
 func flattenTree(b []byte, ns []generic.PathNode) []byte {
@@ -721,6 +772,9 @@ func runC12(w *W) {
 			w.Logf("   -> err=%q out=%d bytes %x", solo[i][k].Err, len(solo[i][k].Out), clipb(solo[i][k].Out, 40))
 			if op.Cut == 0 && len(solo[i][k].Err) > 5 && solo[i][k].Err[:5] == "PANIC" {
 				w.Failf("panic-in-op", w.opFacts, "operation %s panicked: %s", op.Desc, solo[i][k].Err)
+			}
+			if strings.HasPrefix(solo[i][k].Err, "RESULT-ALIASES-INPUT") {
+				w.Failf("result-aliases-input", w.opFacts, "the result of %s refers to the caller's input bytes", op.Desc)
 			}
 			if strings.HasPrefix(solo[i][k].Err, "INPUT-TAIL-MODIFIED") {
 				w.Failf("input-modified", w.opFacts, "operation %s wrote into the caller's buffer behind the end of its input", op.Desc)
